@@ -1,0 +1,30 @@
+//! Verification hooks (only compiled with `--cfg mainline_verif`): public names for crate-private
+//! items, so that an external harness can drive them. Nothing here changes production behaviour.
+#![allow(missing_docs)]
+
+use crate::common::{Id, Node, RoutingTable};
+
+/// Named constants of the crate, as (name, value) pairs; durations in milliseconds.
+pub fn consts() -> Vec<(&'static str, u128)> {
+    vec![
+        ("ID_SIZE", crate::common::ID_SIZE as u128),
+        ("MAX_DISTANCE", crate::common::MAX_DISTANCE as u128),
+        ("MAX_BUCKET_SIZE_K", crate::common::MAX_BUCKET_SIZE_K as u128),
+        ("STALE_TIME_MS", crate::common::STALE_TIME.as_millis()),
+        ("TOKEN_ROTATE_INTERVAL_MS", crate::common::TOKEN_ROTATE_INTERVAL.as_millis()),
+        ("REFRESH_TABLE_INTERVAL_MS", crate::core::REFRESH_TABLE_INTERVAL.as_millis()),
+        ("PING_TABLE_INTERVAL_MS", crate::core::PING_TABLE_INTERVAL.as_millis()),
+        ("MAX_CACHED_ITERATIVE_QUERIES", crate::core::MAX_CACHED_ITERATIVE_QUERIES as u128),
+        ("MIN_REQUEST_TIMEOUT_MS", crate::actor::socket::MIN_REQUEST_TIMEOUT.as_millis()),
+    ]
+}
+
+/// `RoutingTable::reset_id` (crate-private).
+pub fn routing_table_reset_id(table: &mut RoutingTable, id: Id) {
+    table.reset_id(id)
+}
+
+/// `RoutingTable::closest_secure` (crate-private).
+pub fn routing_table_closest_secure(table: &RoutingTable, target: Id) -> Vec<Node> {
+    table.closest_secure(target)
+}
